@@ -327,6 +327,12 @@ class Emitter:
             e = self.ty(m.group(1)); cn = 'opt_' + cident(e.c)
             self.containers.setdefault(cn, 'CC_DEFINE_OPT(%s,%s)' % (cn, e.c))
             return Ty('opt', cn, elem=e, ref=ref, const=const)
+        m = re.fullmatch(r'std::array<(.*)>', q)
+        if m:
+            a, nn = split_targs(m.group(1)); ta = self.ty(a)
+            cn = 'arr_%s_%s' % (cident(ta.c), cident(nn))
+            self.containers.setdefault(cn, 'typedef struct { %s data[%s]; } %s;\n' % (ta.c, re.sub(r'[A-Za-z]+$', '', nn), cn))
+            t = Ty('arr', cn, elem=ta, ref=ref, const=const); t.n = re.sub(r'[A-Za-z]+$', '', nn); return t
         m = re.fullmatch(r'std::pair<(.*)>', q)
         if m:
             a, b = split_targs(m.group(1)); ta = self.ty(a); tb = self.ty(b)
